@@ -22,7 +22,7 @@ MANIFEST = {
              'shipped policies"). Behaviour with assert_limits = false for RESGreedy relies on a panic helper and is not claimed.'),
 }
 EXPLANATION = 'Per-unit share terms (arm tables) of the distribution functions, with sign and bound obligations per arm.'
-RULES = ['C10-1.conservation', 'C10-2.proportional', 'C10-3.resgreedy', 'C10-4.regen', 'C10-5.dynbrake', 'C10-6.coverage']
+RULES = ['C10-1.conservation', 'C10-2.proportional', 'C10-3.resgreedy', 'C10-4.regen', 'C10-5.dynbrake', 'C10-6.coverage', 'C10-7.unit']
 ASSUMPTIONS = ['unit limits >= 0', 'consist limits > 0 where divided by', 'drivetrain rating >= regeneration share of the unit']
 
 A = [(r'pwr_out_max$', 'nonneg'), (r'pwr_regen_max$', 'nonneg'), (r'pwr_out_max_reves$', 'pos'), (r'pwr_out_max_non_reves$', 'pos'),
@@ -51,6 +51,10 @@ def run(ctx):
     resgreedy(ctx)
     negative(ctx)
     coverage(ctx)
+    # the power a unit records for the step is the share it was solved for: traction minus dynamic braking of its drivetrain,
+    # for every powertrain type (shared with C01-3; otherwise the units' recorded powers no longer sum to the request)
+    from .C01 import loco_pwr_out_arms
+    loco_pwr_out_arms(ctx, 'C10-7.unit')
 
 
 def _unit(lvl, *fields):
